@@ -367,22 +367,22 @@ impl<'a> ListStylist<'a> {
             FoldStyle::Always => {
                 // TODO - this may implies `tight_delim`
                 let mut inner = arena.nil();
-                for (i, item) in self.items.into_iter().enumerate() {
-                    let is_last = i + 1 == item_count;
+                // Items and detached comments are separated by single spaces.
+                let mut is_first = true;
+                for item in self.items.into_iter() {
+                    if !matches!(item, Item::Linebreak(_))
+                        && !std::mem::replace(&mut is_first, false)
+                    {
+                        inner += arena.space();
+                    }
                     match item {
-                        Item::Comment(cmt) => {
-                            inner += if is_last && sty.tight_delim {
-                                cmt
-                            } else {
-                                cmt + arena.space()
-                            }
-                        }
+                        Item::Comment(cmt) => inner += cmt,
                         Item::Commented { body, after, .. } => {
                             seen_real_items += 1;
                             let is_last_real = seen_real_items == self.real_item_count;
                             inner += body + after;
                             if !is_last_real {
-                                inner += sep.clone() + arena.space();
+                                inner += sep.clone();
                             } else if sty.add_trailing_sep_always
                                 || is_single && sty.add_trailing_sep_single
                             {
